@@ -435,6 +435,12 @@ func (n *dagScanNode) dagBlockToNodeDoc(block *coreblock.Block) (core.Doc, error
 }
 
 func (n *dagScanNode) addSignatureFieldToDoc(link cidlink.Link, commit *core.Doc) error {
+	sigFieldIndexes := n.commitSelect.DocumentMapping.IndexesByName[request.SignatureFieldName]
+	if len(sigFieldIndexes) == 0 {
+		// The signature field was not requested.
+		return nil
+	}
+
 	txn := datastore.CtxMustGetTxn(n.planner.ctx)
 
 	sigIPLDBlock, err := txn.Blockstore().Get(n.planner.ctx, link.Cid)
@@ -446,7 +452,7 @@ func (n *dagScanNode) addSignatureFieldToDoc(link cidlink.Link, commit *core.Doc
 	if err != nil {
 		return err
 	}
-	sigFieldIndex := n.commitSelect.DocumentMapping.IndexesByName[request.SignatureFieldName][0]
+	sigFieldIndex := sigFieldIndexes[0]
 	sigMapping := n.commitSelect.DocumentMapping.ChildMappings[sigFieldIndex]
 
 	sigDoc := sigMapping.NewDoc()
